@@ -213,6 +213,9 @@ pub fn plan(prop: &str, tier: &str) -> Option<Plan> {
                 s.push(e2(prop, "tk", H_GOOD, "look1+mut+ch0+shape2", &[], 3, "chk", 40.0));
                 s.push(e2(prop, "zst", H_GOOD, "look+mut+ch1+bulk2+shape2", &[], 1, "chk", 40.0));
                 s.push(e2(prop, "u32", H_CONST, "look1+mut+ch0+shape2", &[], 3, "chk", 40.0));
+                // 192-byte, 64-byte-aligned elements with self-checking padding
+                s.push(e1(prop, "big", H_GOOD, 0, full, &[], 40, 1, 1, "chk", 40.0));
+                s.push(e2(prop, "big", H_LOW, "look1+mut+ch0+shape2", &[], 3, "chk", 40.0));
                 s.push(e1(prop, "u32", H_GOOD, 0, "look1+mut+ch0+shape", &[], 600, 1, 0, "chk", 40.0));
                 s.push(e1(prop, "u32", H_LOW, 0, "look1+mut+ch0+shape", &[], 300, 1, 0, "chk", 40.0));
                 s.push(e1(prop, "u32", H_GOOD, 0, "rmold/rmold/look1+mut1+ch0+iterlite", &["cursor"], 72, 3, 0, "chk", 40.0));
@@ -241,6 +244,11 @@ pub fn plan(prop: &str, tier: &str) -> Option<Plan> {
                 }
                 s.push(e2(prop, "zst", H_GOOD, "look+mut+ch1+bulk2+shape2", &[], 1, "chk", 600.0));
                 s.push(e2(prop, "u32", H_GOOD, "look+mut+ch1+bulk2+shape2", &[], 3, "chk", 900.0));
+                for &hk in &[H_GOOD, H_LOW] {
+                    s.push(e1(prop, "big", hk, 0, full, &[], 130, 1, 1, "chk", 600.0));
+                    s.push(e1(prop, "big", hk, 0, lite, &[], 40, 2, 1, "chk", 900.0));
+                    s.push(e2(prop, "big", hk, "look1+mut+ch0+shape2", &[], 4, "chk", 900.0));
+                }
                 for &hk in &HS4 {
                     s.push(sweep(prop, "u32", hk, if hk == H_CONST { 3_000 } else { 1_000_000 }, &["cheap"], &[("stride", "3"), ("audit_every", "50000"), ("mix", "1")], "chk", 600.0));
                 }
@@ -400,8 +408,10 @@ pub fn plan(prop: &str, tier: &str) -> Option<Plan> {
                     s.push(as_set(e2(prop, "tk", H_LOW, "skey+sshape2", &fl, 3, prof, 45.0)));
                     s.push(as_set(e2(prop, "zst", H_GOOD, "skey+sshape2", &fl, 1, prof, 45.0)));
                     s.push(e2(prop, "zd", H_GOOD, "look+mut+ch1+bulk2+shape2+iterlite", &fl, 1, prof, 45.0));
+                    s.push(e1(prop, "big", H_GOOD, 0, "look1+mut+ch1+bulk+shape+iterlite", &fl, if prof == "asan" { 31 } else { 40 }, 1, 1, prof, 45.0));
+                    s.push(as_set(e1(prop, "big", H_LOW, 0, "skey+sshape", &fl, 31, 1, 1, prof, 45.0)));
                 }
-                bounds = json!({"E1": "Tk: d<=1 at N=64 / d<=2 at N=18 (chk), d<=1 at N=31..48 (asan)", "E2": "fixpoint u=3 (Tk; u=2 for HConst under asan), ZST", "profiles": "asan (optimised, assertions off) and chk (hashbrown debug assertions on)"});
+                bounds = json!({"large elements": "192-byte, 64-byte-aligned elements with self-checking padding: d<=1 at N=31..40, map and set", "E1": "Tk: d<=1 at N=64 / d<=2 at N=18 (chk), d<=1 at N=31..48 (asan)", "E2": "fixpoint u=3 (Tk; u=2 for HConst under asan), ZST", "profiles": "asan (optimised, assertions off) and chk (hashbrown debug assertions on)"});
             } else {
                 for &prof in &["asan", "chk"] {
                     for &hk in &HS4 {
@@ -418,8 +428,12 @@ pub fn plan(prop: &str, tier: &str) -> Option<Plan> {
                     s.push(as_set(e1(prop, "tk", H_LOW, 0, "skey+sshape", &fl, 31, 2, 1, prof, 1200.0)));
                     s.push(as_set(e2(prop, "tk", H_LOW, "skey+sshape2", &fl, 4, prof, 1200.0)));
                     s.push(as_set(e2(prop, "zst", H_GOOD, "skey+sshape2", &fl, 1, prof, 100.0)));
+                    s.push(e1(prop, "big", H_GOOD, 0, "look1+mut+ch1+bulk+shape+iterlite", &fl, 130, 1, 1, prof, 900.0));
+                    s.push(e1(prop, "big", H_LOW, 0, a, &fl, 33, 2, 1, prof, 1200.0));
+                    s.push(as_set(e1(prop, "big", H_LOW, 0, "skey+sshape+siter", &fl, 64, 1, 1, prof, 900.0)));
+                    s.push(e2(prop, "big", H_GOOD, "look1+mut+ch0+shape2+iterlite", &fl, 4, prof, 1200.0));
                 }
-                bounds = json!({"E1": "Tk: d<=1 at N=130, d<=2 at N=33 (4 hashers, both profiles)", "E2": "fixpoint u=5/4 (Tk), ZST"});
+                bounds = json!({"large elements": "192-byte, 64-byte-aligned elements: d<=1 at N=130, d<=2 at N=33, E2 u=4", "E1": "Tk: d<=1 at N=130, d<=2 at N=33 (4 hashers, both profiles)", "E2": "fixpoint u=5/4 (Tk), ZST"});
             }
         }
         "C06" => {
